@@ -7,9 +7,11 @@ import (
 	"math/rand"
 	"sort"
 	"strings"
+	"sync"
 	"time"
 
 	"github.com/lindb/lindb/flow"
+	"github.com/lindb/lindb/internal/verifhook"
 	"github.com/lindb/lindb/models"
 	protoCommonV1 "github.com/lindb/lindb/proto/gen/v1/common"
 	querycontext "github.com/lindb/lindb/query/context"
@@ -419,5 +421,251 @@ func fixedIdleLeaf(c *core.Ctx) {
 		}
 	}
 	c.Branch("collect-fixed")
+	c.NonTrivial()
+}
+
+// ---------------------------------------------------------------- the protocol step by atomic step
+//
+// interleaveCase realises, on the real code, interleavings of the ATOMIC steps of stage completions
+// (model: LinVerif.LeafCollect.GI, ops `li-*`): CompleteGroupingTask = Dec | Load (the guard of
+// collectGroupByTagValues) | body (under StorageExecuteContext.CollectTagValues). Each completion
+// runs on its own goroutine, parked by a deterministic scheduler at the two verif yield points
+// (query.leafgrouping.complete.afterDec, query.leafgrouping.collect.afterLoad); other stages' forks,
+// id collections and completion steps are placed between them. One goroutine runs at a time.
+
+type liThread struct {
+	resume chan struct{}
+	parked chan string
+	done   chan struct{}
+	at     string // "" running / finished, else the yield id it is parked at
+}
+
+type liSched struct {
+	mu  sync.Mutex
+	cur *liThread
+}
+
+func (s *liSched) hook(id string) {
+	if !strings.HasPrefix(id, "query.leafgrouping.") {
+		return
+	}
+	s.mu.Lock()
+	t := s.cur
+	s.mu.Unlock()
+	if t == nil {
+		return
+	}
+	t.parked <- id
+	<-t.resume
+}
+
+// run lets t run (start it with f if it is new) until it parks again or finishes.
+func (s *liSched) run(t *liThread, f func()) bool {
+	s.mu.Lock()
+	s.cur = t
+	s.mu.Unlock()
+	if f != nil {
+		go func() {
+			defer close(t.done)
+			defer func() { _ = recover() }()
+			f()
+		}()
+	} else {
+		t.resume <- struct{}{}
+	}
+	ok := true
+	select {
+	case id := <-t.parked:
+		t.at = id
+	case <-t.done:
+		t.at = ""
+	case <-time.After(5 * time.Second):
+		ok = false
+	}
+	s.mu.Lock()
+	s.cur = nil
+	s.mu.Unlock()
+	return ok
+}
+
+func interleaveCase(c *core.Ctx, rng *rand.Rand) {
+	sch := &liSched{}
+	verifhook.Set(sch.hook)
+	defer verifhook.Set(nil)
+	for rep := 0; rep < 3; rep++ {
+		k := 1 + rng.Intn(3)
+		holes := genHoles(rng, k)
+		var hs []string
+		for h := range holes {
+			hs = append(hs, fmt.Sprintf("%d:%d", h[0], h[1]))
+		}
+		sort.Strings(hs)
+		l, err := newLcLeaf(k, holes, leafTimeout)
+		if err != nil {
+			c.Fail("harness", "interleave stream: "+err.Error())
+			return
+		}
+		var afterDec, afterLoad []*liThread
+		state := func() string {
+			return fmt.Sprintf("%s ndec=%d nload0=%d", l.state(), len(afterDec), len(afterLoad))
+		}
+		c.Op(fmt.Sprintf("li-new %d %s", k, joinOr(hs, ",")), state())
+		running, spawned := 0, 0
+		collected := make([]map[uint32]bool, k)
+		for i := range collected {
+			collected[i] = map[uint32]bool{}
+		}
+		var trace []string
+		stuck := false
+		for step := 0; step < 60 && !stuck; step++ {
+			// the steps some thread can take now
+			var opts []string
+			if spawned < 4 {
+				opts = append(opts, "spawn")
+			}
+			if running > 0 {
+				opts = append(opts, "ids", "dec", "dec")
+			}
+			if len(afterDec) > 0 {
+				opts = append(opts, "load", "load")
+			}
+			if len(afterLoad) > 0 {
+				opts = append(opts, "body", "body")
+			}
+			if running == 0 && len(afterDec) == 0 && len(afterLoad) == 0 && (spawned >= 1 || rng.Intn(4) == 0) {
+				if spawned >= 4 || rng.Intn(2) == 0 {
+					break
+				}
+			}
+			if len(opts) == 0 {
+				break
+			}
+			switch o := opts[rng.Intn(len(opts))]; o {
+			case "spawn":
+				spawned++
+				running++
+				trace = append(trace, "spawn")
+				c.Guard("li-spawn", func() string { l.lctx.GroupingCtx.ForkGroupingTask(); return state() })
+			case "ids":
+				ids := make([]uint32, k)
+				for j := range ids {
+					ids[j] = uint32(1 + rng.Intn(8))
+					collected[j][ids[j]] = true
+				}
+				trace = append(trace, "ids:"+natList(ids))
+				c.Guard("li-ids "+natList(ids), func() string { l.dl.NewSeriesAggregator(lcKey(ids)); return state() })
+			case "dec":
+				running--
+				t := &liThread{resume: make(chan struct{}), parked: make(chan string), done: make(chan struct{})}
+				trace = append(trace, "dec")
+				if !sch.run(t, func() { l.lctx.GroupingCtx.CompleteGroupingTask() }) || t.at != "query.leafgrouping.complete.afterDec" {
+					c.Fail("harness", "interleave stream: a completion did not reach the yield point after Dec (at "+t.at+")")
+					stuck = true
+					break
+				}
+				afterDec = append(afterDec, t)
+				c.Op("li-dec", state())
+			case "load":
+				i := rng.Intn(len(afterDec))
+				t := afterDec[i]
+				afterDec = append(afterDec[:i], afterDec[i+1:]...)
+				trace = append(trace, "load")
+				if !sch.run(t, nil) {
+					c.Fail("harness", "interleave stream: a completion is stuck after its Load")
+					stuck = true
+					break
+				}
+				if t.at == "query.leafgrouping.collect.afterLoad" {
+					afterLoad = append(afterLoad, t)
+				}
+				c.Op("li-load", state())
+			case "body":
+				i := rng.Intn(len(afterLoad))
+				t := afterLoad[i]
+				afterLoad = append(afterLoad[:i], afterLoad[i+1:]...)
+				f := "-"
+				l.mdb.failKey = 0
+				if rng.Intn(8) == 0 {
+					fk := rng.Intn(k)
+					f = fmt.Sprint(fk)
+					l.mdb.failKey = tag.KeyID(10 + fk)
+				}
+				trace = append(trace, "body"+map[bool]string{true: "", false: "!" + f}[f == "-"])
+				if !sch.run(t, nil) || t.at != "" {
+					c.Fail("harness", "interleave stream: a collect body did not finish")
+					stuck = true
+					break
+				}
+				l.mdb.failKey = 0
+				c.Op("li-body "+f, state())
+			}
+		}
+		if stuck {
+			return
+		}
+		// drain: every stage completes, then the callback
+		for running > 0 || len(afterDec) > 0 || len(afterLoad) > 0 {
+			switch {
+			case len(afterLoad) > 0:
+				t := afterLoad[0]
+				afterLoad = afterLoad[1:]
+				trace = append(trace, "body")
+				if !sch.run(t, nil) {
+					c.Fail("harness", "interleave stream: a collect body did not finish")
+					return
+				}
+				c.Op("li-body -", state())
+			case len(afterDec) > 0:
+				t := afterDec[0]
+				afterDec = afterDec[1:]
+				trace = append(trace, "load")
+				if !sch.run(t, nil) {
+					c.Fail("harness", "interleave stream: a completion is stuck after its Load")
+					return
+				}
+				if t.at == "query.leafgrouping.collect.afterLoad" {
+					afterLoad = append(afterLoad, t)
+				}
+				c.Op("li-load", state())
+			default:
+				running--
+				t := &liThread{resume: make(chan struct{}), parked: make(chan string), done: make(chan struct{})}
+				trace = append(trace, "dec")
+				if !sch.run(t, func() { l.lctx.GroupingCtx.CompleteGroupingTask() }) {
+					c.Fail("harness", "interleave stream: a completion did not reach the yield point after Dec")
+					return
+				}
+				if t.at == "query.leafgrouping.complete.afterDec" {
+					afterDec = append(afterDec, t)
+				}
+				c.Op("li-dec", state())
+			}
+		}
+		t0 := time.Now()
+		var line string
+		c.Guard("li-send", func() string { l.lctx.SendResponse(nil); line = state(); return line })
+		if took := time.Since(t0); strings.Contains(line, "ans=deadline") || took >= leafTimeout*3/4 {
+			c.Fail("leaf-blocks-until-deadline", fmt.Sprintf("interleaving of atomic completion steps, %d group-by keys: %s: SendResponse(nil) answered after %s: %s",
+				k, clip(strings.Join(trace, " ")), took.Round(10*time.Millisecond), line))
+		} else if strings.Contains(line, "ans=ok") {
+			// every collected id the dictionary knows is in the collected maps
+			_, _, _, maps := l.lctx.GroupingCtx.VerifCollectState()
+			for i := range collected {
+				have := map[uint32]bool{}
+				if i < len(maps) {
+					for _, id := range maps[i] {
+						have[id] = true
+					}
+				}
+				for id := range collected[i] {
+					if !holes[[2]uint32{uint32(i), id}] && !have[id] {
+						c.Fail("collected-tag-value-rendered-as-not-found", fmt.Sprintf("interleaving of atomic completion steps, %d keys: %s: id %d of key %d was collected and is in the dictionary, but the leaf answers without it in tagValuesMap (%s)",
+							k, clip(strings.Join(trace, " ")), id, i, line))
+					}
+				}
+			}
+		}
+		c.Branch("collect-interleaved")
+	}
 	c.NonTrivial()
 }
